@@ -45,6 +45,47 @@ def run(ctx, crate):
     # routine can take a reposition-only path for it (move-cursor mode), the closure writes over bar rows that were never erased
     # and its line keeps the tail of that bar (seed C03k)
     D.rule_draw_order(ctx, crate)
+    rule_println_lines(ctx, crate)
+
+
+def rule_println_lines(ctx, crate, rule="R-PRINTLN-LINES"):
+    """"every line emitted with println ... stays on the terminal": a printed line reaches the paint routine without the line
+    terminator - all of it. The text is cut with `str::lines()` (which takes `\n` *and* `\r\n` as terminators), or with a
+    splitter on '\n' whose pieces are then relieved of a trailing '\r'. A piece that keeps its carriage return sends the cursor back
+    to column 0 when it is painted, and whatever is written after it on that row (the end-of-frame filler, the blanking of
+    move-cursor mode) overwrites the printed text (seed C03l: `split_terminator('\n')` for CRLF input)."""
+    cfg = crate.config
+    n = 0
+    LINES = r"core::str::<impl str>::lines"
+    SPLITS = r"core::str::<impl str>::(split|split_terminator|split_inclusive|rsplit|splitn|rsplit_terminator)"
+    STRIPS = r"core::str::<impl str>::(strip_suffix|trim_end_matches|trim_end|trim_matches|trim_right_matches)"
+    for (b, i, j, st) in K.constructions(crate, D.LINETYPE, "Text"):
+        if b.file in K.TEST_DOUBLE_FILES:
+            continue
+        sls = [b.slice_rv(i, st)]
+        consumer_seen = b.kind != "Closure"
+        if b.kind == "Closure":
+            # the closure is applied to the pieces of an iterator built where the closure is: in the function it is written in, or
+            # wherever that function was inlined
+            for parent in K.lib_bodies(crate):
+                for cb, c, k in K.closures_consumed(crate, parent):
+                    if cb.name == b.name:
+                        sls.append(parent.slice_args(c, [0]))
+                        consumer_seen = True
+        if not consumer_seen:
+            ctx.lost(rule, cfg, "the closure %s that builds LineType::Text is not handed to any call" % b.name)
+            continue
+        if not any(sl.params() or sl.calls for sl in sls):
+            continue            # a constant line
+        n += 1
+        lines = any(sl.has_call(LINES) for sl in sls)
+        split_strip = any(sl.has_call(SPLITS) for sl in sls) and any(sl.has_call(STRIPS) for sl in sls)
+        whole = not any(sl.has_call(LINES) or sl.has_call(SPLITS) for sl in sls)
+        ctx.check(lines or split_strip or whole, rule, "text-line:%s" % K.meth(K.owner_fn(crate, b)), b.name, "%s:%d" % (b.file, st.get("line", 0)),
+                  "printed text is cut into lines by str::lines() (or a '\\n' splitter followed by a strip of the trailing '\\r')",
+                  "printed text is cut at '\\n' by a splitter that leaves the '\\r' of a CRLF line ending in the piece: painted, the carriage return moves the cursor to "
+                  "column 0 and the filler / blanking written after the line erases the printed text", cfg)
+    ctx.floor(rule, n, 2, cfg, "constructions of LineType::Text from printed text")
 
 
 def rule_println_forced(ctx, crate, rule="R-PRINTLN-FORCED"):
@@ -411,6 +452,51 @@ def rule_row_transfer_pairing(ctx, crate, rule="R-ROW-TRANSFER-PAIRING"):
                           % ", ".join(str(r_.line) for r_ in stale), cfg)
             elif not reads:
                 ctx.lost(rule, cfg, "MultiState::draw no longer tests the orphan-line queue")
+        # (f) reaped bars leave the ordering and their rows leave the erase count *together*: in the function that removes the
+        #     reaped members, whether the Keep happens is decided only by the flag that also decides the Clear of the printing
+        #     path (one of the two hand-overs always takes place). A Keep that additionally depends on something else - the result
+        #     of the paint, say - can be skipped while the members are removed all the same: their rows stay in the erase count and
+        #     the next successful draw wipes the final line of a visibly finished bar (seed C18l)
+        if b.name == "multi::MultiState::draw" and keeps and b.calls(r"multi::MultiState::remove_idx"):
+            def roots(sb_):
+                out_, work_ = set(), [operand_local(b.term(sb_)["op"])]
+                while work_:
+                    x_ = work_.pop()
+                    if x_ is None or x_ in out_:
+                        continue
+                    out_.add(x_)
+                    for d_ in b.defs().get(x_, ()):
+                        if d_["kind"] == "assign" and not d_["lhs"]["p"]:
+                            rv_ = d_["rv"]
+                            if rv_["k"] == "use" and rv_["op"].get("k") in ("copy", "move") and not rv_["op"]["place"]["p"]:
+                                work_.append(operand_local(rv_["op"]))
+                            elif rv_["k"] == "un" and rv_.get("op") == "Not":
+                                work_.append(operand_local(rv_.get("a")))
+                return out_
+
+            def deciders(site):
+                return [sb_ for sb_, t_ in b.switches() if any(b.edge_dominates((sb_, x_), site) for x_ in b.succ(sb_))
+                        and not all(site in b.reach([y_]) for y_ in b.succ(sb_))]
+            clear_roots = set()
+            for (cbb, cs, csl) in clears:
+                for sb_ in deciders(cbb):
+                    clear_roots |= roots(sb_)
+            n += 1
+            extra = []
+            rm_deciders = set()
+            for rc in b.calls(r"multi::MultiState::remove_idx"):
+                rm_deciders |= set(deciders(rc.bb))
+            for (kbb, ks, ksl) in keeps:
+                for sb_ in deciders(kbb):
+                    if sb_ in rm_deciders:
+                        continue        # (a refused draw leaves before both)
+                    if not (roots(sb_) & clear_roots):
+                        extra.append("%s:%d" % (b.file, b.term(sb_).get("line", 0)))
+            ctx.check(not extra, rule, "reap<->keep", b.name, extra[0] if extra else K.fn_loc(b),
+                      "the rows of reaped bars are released (Keep) whenever they are not handed over by the printing path (Clear): nothing else decides it",
+                      "the Keep that releases the rows of reaped bars also depends on a test that does not decide the printing hand-over (e.g. the result of the paint): "
+                      "the reaped members are removed from the ordering but their rows stay in the erase count - the next successful draw erases the final line of a "
+                      "visibly finished bar", cfg)
         # (b) every Clear(zombie_lines_count) is followed on all paths by a zero store
         zero_bbs = [i for i, s in zeros]
         for (cbb, cs, csl) in clears:
